@@ -26,9 +26,11 @@ def one(job):
     import random
     import logging
     logging.disable(logging.CRITICAL)
-    seed, ntls, nquic, damage, args = job
+    seed, ntls, nquic, damage, args = job[:5]
     rng = random.Random(seed)
-    mx = e2e.Mixed(rng, [e2e.random_combo(rng) for _ in range(ntls)], n_quic=nquic, noise=True)
+    # job[5]: forced QUIC features (a one-directional download of more than 65507 bytes: the datagrams must stay apart)
+    mx = e2e.Mixed(rng, [e2e.random_combo(rng) for _ in range(ntls)], n_quic=nquic, noise=True,
+                   quic_features=[dict(job[5])] * nquic if len(job) > 5 else None)
     items, kl = list(mx.items), list(mx.keylog)
     what = damage
     if damage == "no-keys":
@@ -110,6 +112,8 @@ def explore(ctx, scale=1):
     for i in range(n):
         nt, nq = [(1, 0), (2, 1), (1, 1), (0, 1), (0, 0)][i % 5]
         jobs.append((rng.getrandbits(48), nt, nq, damages[i % len(damages)], OPTS[(i // len(damages)) % len(OPTS)]))
+    for k in range(2 * scale):
+        jobs.append((rng.getrandbits(48), k % 2, 1, "none", OPTS[k % len(OPTS)], (("download", True), ("reorder", False))))
     results = tool.pmap(one, jobs, procs=16 if ctx.thorough() else 8)
     o = ctx.oracle.setdefault("strict-reader", {"runs": 0, "violations": 0, "empty_outputs": 0})
     for job, (prob, desc, blob, npk) in zip(jobs, results):
